@@ -14,13 +14,16 @@ worker() {
     name=$(basename $d); [ -f $d/patch.diff ] || continue
     id=$(jq -r .property $d/meta.json)
     git -C $wt checkout -q -- . ; git -C $wt clean -qfd
-    if ! git -C $wt apply $d/patch.diff 2>/dev/null; then
+    patch=$d/patch.diff; [ -f $d/patch_rebased.diff ] && patch=$d/patch_rebased.diff   # re-based onto the current tree after a repair touched the same lines
+    if ! git -C $wt apply $patch 2>/dev/null; then
       echo "$name $id NOT-APPLICABLE (does not apply to the current tree: superseded by a repair)"; continue
     fi
     res=$(cd /verif && VERIF_REPO=$wt ./check $id $tier 2>&1)
     rc=$?
     sig=$(echo "$res" | grep -o "^  C[0-9][0-9]/[^:]*" | head -1 | tr -d ' ')
     case "$rc" in 1) r="KILLED $sig";; 0) r=SURVIVED;; *) r="rc=$rc $(echo "$res" | tail -1 | cut -c1-100)";; esac
+    echo "$res" | grep -q "reason=build-failed" && r="NOT-APPLICABLE (applies textually but no longer compiles: superseded by a repair)"
+    [ -n "$(jq -r '.obsolete // ""' $d/meta.json)" ] && r="$r [marked obsolete: $(jq -r .obsolete $d/meta.json | cut -c1-90)]"
     echo "$name $id $r"
   done
   git -C /repo worktree remove --force $wt
